@@ -709,6 +709,57 @@ pub fn post_blind(tx: &mut Transaction, w: &Workload, seed: u64) -> bool {
     true
 }
 
+/// Exact-value / exact-asset proofs (the PSET explicit fields): a proof made for an output's commitments
+/// verifies for the true value and asset and for nothing else.
+fn explicit_proofs(ctx: &mut Ctx, case: &Case, w: &Workload, rx: &Transaction, blinds: &BTreeMap<elements::CtLocation, (AssetBlindingFactor, ValueBlindingFactor, SecretKey)>) {
+    use elements::secp256k1_zkp::{RangeProof, SurjectionProof};
+    use elements::{BlindAssetProofs, BlindValueProofs};
+    let secp = secp();
+    let mut rng = SimRng::new(&RngPlan { seed: case.rng.seed ^ 0xe1, personality: Personality::Uniform });
+    let mut p = Prng::from_u64(case.spec.seed ^ 0xe2);
+    let confs: Vec<(usize, &(AssetBlindingFactor, ValueBlindingFactor, SecretKey))> = blinds.iter().map(|(l, b)| (l.input_index, b)).collect();
+    for (k, (i, (abf, vbf, _))) in confs.iter().enumerate() {
+        let (asset, value) = w.originals[*i];
+        let (Some(comm), Some(gen_)) = (rx.output[*i].value.commitment(), rx.output[*i].asset.commitment()) else { continue };
+        let Some(Ok(vp)) = ctx.call("blind_value_proof", 0, || RangeProof::blind_value_proof(&mut rng, secp, value, comm, gen_, *vbf)) else {
+            ctx.violate("C05.explicit_proof.value", "create", format!("cannot create the explicit-value proof for output {}", i));
+            continue;
+        };
+        let Some(Ok(ap)) = ctx.call("blind_asset_proof", 0, || SurjectionProof::blind_asset_proof(&mut rng, secp, asset, *abf)) else {
+            ctx.violate("C05.explicit_proof.asset", "create", format!("cannot create the explicit-asset proof for output {}", i));
+            continue;
+        };
+        ctx.nontrivial = true;
+        ctx.fault("tamper.explicit_proof", 1);
+        let ok = ctx.call("blind_value_proof_verify", 0, || vp.blind_value_proof_verify(secp, value, gen_, comm)).unwrap_or(false);
+        ctx.check(ok, "C05.explicit_proof.value", "true-rejected", || format!("output {}: a fresh explicit-value proof does not verify", i));
+        let other_value = if p.coin() { value.wrapping_add(1) } else { value.wrapping_sub(1).max(1) };
+        if other_value != value {
+            let bad = ctx.call("blind_value_proof_verify", 0, || vp.blind_value_proof_verify(secp, other_value, gen_, comm)).unwrap_or(false);
+            ctx.check(!bad, "C05.explicit_proof.value", "other-value-accepted", || format!("output {}: explicit-value proof for {} verifies for {}", i, value, other_value));
+        }
+        let other_gen = *p.pick(&pool().gens);
+        let bad = ctx.call("blind_value_proof_verify", 0, || vp.blind_value_proof_verify(secp, value, other_gen, comm)).unwrap_or(false);
+        ctx.check(!bad, "C05.explicit_proof.value", "other-generator-accepted", || format!("output {}: explicit-value proof verifies under a foreign asset generator", i));
+        if let Some((j, _)) = confs.get((k + 1) % confs.len()) {
+            if j != i {
+                if let Some(other_comm) = rx.output[*j].value.commitment() {
+                    let bad = ctx.call("blind_value_proof_verify", 0, || vp.blind_value_proof_verify(secp, value, gen_, other_comm)).unwrap_or(false);
+                    ctx.check(!bad, "C05.explicit_proof.value", "other-commitment-accepted", || format!("output {}: explicit-value proof verifies for output {}'s commitment", i, j));
+                }
+            }
+        }
+        let ok = ctx.call("blind_asset_proof_verify", 0, || ap.blind_asset_proof_verify(secp, asset, gen_)).unwrap_or(false);
+        ctx.check(ok, "C05.explicit_proof.asset", "true-rejected", || format!("output {}: a fresh explicit-asset proof does not verify", i));
+        let mut ob = asset.to_byte_array();
+        ob[p.usize_below(32)] ^= 1 << p.below(8);
+        let bad = ctx.call("blind_asset_proof_verify", 0, || ap.blind_asset_proof_verify(secp, AssetId::from_byte_array(ob), gen_)).unwrap_or(false);
+        ctx.check(!bad, "C05.explicit_proof.asset", "other-asset-accepted", || format!("output {}: explicit-asset proof verifies for another asset id", i));
+        let bad = ctx.call("blind_asset_proof_verify", 0, || ap.blind_asset_proof_verify(secp, asset, other_gen)).unwrap_or(false);
+        ctx.check(!bad, "C05.explicit_proof.asset", "other-generator-accepted", || format!("output {}: explicit-asset proof verifies for a foreign asset commitment", i));
+    }
+}
+
 #[derive(Clone, Debug, Serialize, Deserialize, PartialEq, Eq)]
 pub struct ExplicitSpec {
     pub seed: u64,
@@ -1031,6 +1082,9 @@ impl World for CtWorld {
         // ---- the relay tampers (one fault per delivery)
         if !verified {
             return;
+        }
+        if !case.tampers.is_empty() {
+            explicit_proofs(ctx, case, &w, &rx, &blinds);
         }
         let mut rx = rx;
         if w.gadget.is_some() {
